@@ -1,3 +1,241 @@
-/-! C20 property theorems — stub (not built yet). -/
+import TTProofs.Lemmas.C20_Quad
+import TTProofs.Lemmas.C20_Gamma
+import TTProofs.Lemmas.C20_Suff
+import TTProofs.Lemmas.C08_Examples
+/-!
+# C20 — smoothing / integrated priors and sufficient statistics match their densities
+
+Model: `TTModel/C20_GMRF.lean` (`scaledDiffSq`, `offDiag`, `precisionMatrix`, `quadForm`, `gmrfLogProb`,
+`gammaIntegratedLogProb`, `splitAtMarks`, `skygridSuffStats`, `skyrideSuffStats`, `reproduce`) on top of the
+C08 model.  `precisionMatrix` is the matrix `GMRF.precision_matrix()` publishes after repair F19 (weights
+and time-aware scaling honoured); `published_matrix_ignored_weights_before_fix` records the defect.
+-/
 namespace TTProps.C20
+open TT TT.C08 TT.C20 MeasureTheory
+
+/-! ## quadratic forms (any commutative ring, any length) -/
+
+/-- **gmrf_weighted_form** — for precisions `off_k` of the first differences (`τ / w_k`), the matrix the model
+publishes satisfies `xᵀ Q x = Σ_k off_k (x_k − x_{k+1})²`, for every field length. -/
+theorem gmrf_weighted_form {R : Type} [CommRing R] (off x : List R) (hx : x.length = off.length + 1) :
+    quadForm (precisionMatrix off) x = (List.zipWith (fun a d => a * d) off (diffSq x)).sum :=
+  quadForm_precisionMatrix off x hx
+
+example : quadForm (precisionMatrix ([3, 5] : List ℤ)) [1, 4, 2] = 3 * (1 - 4) ^ 2 + 5 * (4 - 2) ^ 2 := by
+  rw [gmrf_weighted_form _ _ rfl]; decide
+
+/-- **gmrf_quadratic_form** — plain GMRF: `Σ_i (x_{i+1} − x_i)² · τ = xᵀ Q x` for the tridiagonal
+`τ, 2τ, …, 2τ, τ / −τ` matrix, any commutative ring, any length `n = m + 1 ≥ 1`. -/
+theorem gmrf_quadratic_form {R : Type} [CommRing R] (τ : R) (m : ℕ) (x : List R) (hx : x.length = m + 1) :
+    quadForm (precisionMatrix (List.replicate m τ)) x = τ * (diffSq x).sum := by
+  rw [gmrf_weighted_form _ _ (by simpa using hx)]
+  have : ∀ (m : ℕ) (ds : List R), (List.zipWith (fun a d => a * d) (List.replicate m τ) ds).sum
+      = τ * (ds.take m).sum := by
+    intro m
+    induction m with
+    | zero => intro ds; simp
+    | succ m ih =>
+      intro ds
+      cases ds with
+      | nil => simp
+      | cons d ds => simp [List.replicate_succ, ih, mul_add]
+  rw [this]
+  have hlen : (diffSq x).length = m := by
+    have : ∀ (x : List R), (diffSq x).length = x.length - 1 := by
+      intro x
+      induction x with
+      | nil => rfl
+      | cons a l ih =>
+        cases l with
+        | nil => rfl
+        | cons b l => simp only [diffSq, List.length_cons] at ih ⊢; omega
+    rw [this, hx]; rfl
+  rw [List.take_of_length_le (by omega)]
+
+example : quadForm (precisionMatrix (List.replicate 2 (7 : ℤ))) [1, 4, 2] = 7 * ((1 - 4) ^ 2 + (4 - 2) ^ 2) := by
+  rw [gmrf_quadratic_form 7 2 _ rfl]; decide
+
+/-- the published plain matrix really is `τ, 2τ, …, 2τ, τ` on the diagonal and `−τ` next to it -/
+theorem plain_matrix_entries {R : Type} [CommRing R] (τ : R) :
+    precisionMatrix (List.replicate 3 τ) =
+      [[τ, -τ, 0, 0], [-τ, τ + τ, -τ, 0], [0, -τ, τ + τ, -τ], [0, 0, -τ, 0 + τ]] := by
+  simp [precisionMatrix, precEntry, List.range_succ, List.replicate]
+
+/-- **published_matrix_ignored_weights_before_fix** (F19) — the matrix published before the repair (the
+plain one, whatever the weights) is NOT the precision of the weighted density: field `(0, 1)`, weight `2`,
+`τ = 1` gives `xᵀQx = 1` but `τ Σ (Δx)²/w = 1/2`. -/
+theorem published_matrix_ignored_weights_before_fix :
+    quadForm (precisionMatrix (offDiag (1 : ℚ) none 2)) [0, 1]
+      ≠ (scaledDiffSq (some [2]) ([0, 1] : List ℚ)).sum * 1 := by
+  norm_num [quadForm, precisionMatrix, offDiag, precEntry, scaledDiffSq, diffSq, List.range_succ]
+
+/-- **gmrf_density_is_gaussian_form** — the log density `GMRF._call` returns (plain, weighted or time-aware:
+`w` is whatever divisor the variant uses) equals the Gaussian form `d/2 log τ − ½ xᵀQx − d/2 log 2π` of the
+matrix published for the same `w`. -/
+theorem gmrf_density_is_gaussian_form (log2pi τ : ℝ) (field : List ℝ) (w : Option (List ℝ))
+    (hw : ∀ ws, w = some ws → ws.length + 1 = field.length) (hn : 1 ≤ field.length) :
+    gmrfLogProb log2pi τ (scaledDiffSq w field) field.length
+      = Real.log τ * (((field.length - 1 : ℕ) : ℤ) : ℝ) / 2
+        - quadForm (precisionMatrix (offDiag τ w field.length)) field / 2
+        - (((field.length - 1 : ℕ) : ℤ) : ℝ) / 2 * log2pi := by
+  have key : (scaledDiffSq w field).sum * τ
+      = quadForm (precisionMatrix (offDiag τ w field.length)) field := by
+    cases w with
+    | none =>
+      simp only [scaledDiffSq, offDiag]
+      rw [gmrf_quadratic_form τ (field.length - 1) field (by omega)]
+      ring
+    | some ws =>
+      have hl := hw ws rfl
+      simp only [scaledDiffSq, offDiag]
+      rw [gmrf_weighted_form _ _ (by simp; omega)]
+      have htake : ws.take (field.length - 1) = ws := List.take_of_length_le (by omega)
+      rw [htake]
+      clear htake hl hw hn
+      generalize diffSq field = ds
+      induction ds generalizing ws with
+      | nil => simp
+      | cons d ds ih =>
+        cases ws with
+        | nil => simp
+        | cons a ws =>
+          simp only [List.zipWith_cons_cons, List.sum_cons, List.map_cons, add_mul, ih ws]
+          ring
+  unfold gmrfLogProb
+  simp only [trans_log_real]
+  rw [← key]
+
+example : gmrfLogProb (Real.log (2 * Real.pi)) 2 (scaledDiffSq (some [4, 8]) [1, 3, 0]) 3
+    = Real.log 2 * (((3 - 1 : ℕ) : ℤ) : ℝ) / 2
+      - quadForm (precisionMatrix (offDiag 2 (some [4, 8]) 3)) [1, 3, 0] / 2
+      - (((3 - 1 : ℕ) : ℤ) : ℝ) / 2 * Real.log (2 * Real.pi) :=
+  gmrf_density_is_gaussian_form _ 2 [1, 3, 0] (some [4, 8]) (by intro ws h; cases h; rfl) (by simp)
+
+/-! ## the precision integrated out -/
+
+/-- **gamma_integrated** — `∫_0^∞ Gamma(τ; a, b) · GMRF(x | τ) dτ` is the closed form `GMRFGammaIntegrated`
+returns (both as densities: `exp` of the model's log values), for any squared-difference statistic
+`qs` with non-negative sum, any field length, any `a, b > 0`. -/
+theorem gamma_integrated (a b : ℝ) (ha : 0 < a) (hb : 0 < b) (qs : List ℝ) (hS : 0 ≤ qs.sum) (n : ℕ)
+    (log2pi lgA lgAd : ℝ)
+    (hAd : lgAd = Real.log (Real.Gamma (a + (((n - 1 : ℕ) : ℤ) : ℝ) / 2))) :
+    ∫ τ in Set.Ioi (0 : ℝ), Real.exp (gammaLogPdf a b lgA τ) * Real.exp (gmrfLogProb log2pi τ qs n)
+      = Real.exp (gammaIntegratedLogProb log2pi a b lgA lgAd qs n) := by
+  have hd : (0 : ℝ) ≤ (((n - 1 : ℕ) : ℤ) : ℝ) := by exact_mod_cast Nat.zero_le _
+  set d : ℝ := (((n - 1 : ℕ) : ℤ) : ℝ) with hd_def
+  have hs : 0 < a + d / 2 := by positivity
+  have hr : 0 < b + qs.sum / 2 := by positivity
+  have hk := integral_exp_gamma_kernel (a * Real.log b - lgA - d / 2 * log2pi) (a + d / 2) (b + qs.sum / 2) hs hr
+  have hcongr : ∀ τ ∈ Set.Ioi (0 : ℝ),
+      Real.exp (gammaLogPdf a b lgA τ) * Real.exp (gmrfLogProb log2pi τ qs n)
+        = Real.exp ((a * Real.log b - lgA - d / 2 * log2pi) + ((a + d / 2) - 1) * Real.log τ
+            - (b + qs.sum / 2) * τ) := by
+    intro τ _
+    rw [← Real.exp_add]
+    unfold gammaLogPdf gmrfLogProb
+    simp only [trans_log_real, ← hd_def]
+    congr 1; ring
+  rw [setIntegral_congr_fun measurableSet_Ioi hcongr, hk]
+  unfold gammaIntegratedLogProb
+  simp only [trans_log_real, ← hd_def]
+  rw [hAd]
+  congr 1
+  rw [show qs.sum / 2 + b = b + qs.sum / 2 by ring]
+  ring
+
+example : ∫ τ in Set.Ioi (0 : ℝ), Real.exp (gammaLogPdf 2 3 (Real.log (Real.Gamma 2)) τ)
+      * Real.exp (gmrfLogProb (Real.log (2 * Real.pi)) τ [4, 9] 3)
+    = Real.exp (gammaIntegratedLogProb (Real.log (2 * Real.pi)) 2 3 (Real.log (Real.Gamma 2))
+        (Real.log (Real.Gamma (2 + (((3 - 1 : ℕ) : ℤ) : ℝ) / 2))) [4, 9] 3) :=
+  gamma_integrated 2 3 (by norm_num) (by norm_num) [4, 9] (by norm_num) 3 _ _ _ rfl
+
+/-! ## sufficient statistics -/
+
+/-- **suffstats_reproduce_skygrid** — for every order of the node heights and every tie pattern, the per-section
+statistics and coalescent counts published by `PiecewiseConstantCoalescentGrid.sufficient_statistics`
+satisfy `Σ_g ss_g / θ_g + Σ_g c_g log θ_g = −log_prob`. -/
+theorem suffstats_reproduce_skygrid (θ grid : List ℝ) {samp coal samp' coal' : List ℝ}
+    (hs : samp'.Perm samp) (hc : coal'.Perm coal) (hlen : samp.length = coal.length + 1)
+    (hyoung : ∀ c ∈ coal, ∃ s ∈ samp, s < c) :
+    reproduce θ (skygridSuffStats grid (samp' ++ coal')).1 (skygridSuffStats grid (samp' ++ coal')).2
+      = -(skygridLogProb θ grid (samp' ++ coal')) := by
+  obtain ⟨e1, l, hS, hperm, hsorted⟩ := sorted_events grid hs hc hlen
+  have hhead := head_not_coal hperm hsorted hyoung
+  unfold reproduce skygridSuffStats skygridLogProb skygridIntegral skygridLogs
+  simp only [trans_log_real]
+  rw [hS]
+  generalize hev : e1 :: l = ev at hhead
+  have hlenM : (marks ev).length = ev.length := by simp [marks]
+  have hpos : 1 ≤ ev.length := by rw [← hev]; simp
+  have hlenT : (intervalTerms ev).length + 1 ≤ (marks ev).length := by
+    unfold intervalTerms lineages cumsum
+    rw [List.length_zipWith, List.length_dropLast, length_cumsumFrom, length_diffs, hlenM]
+    simp only [times, List.length_map]
+    omega
+  -- the statistics
+  have h1 : (List.zipWith (fun s t => s / t) ((splitAtMarks 0 (marks ev) (intervalTerms ev)).map List.sum) θ).sum
+      = (zipWith3 (fun k d i => (choose2 k : ℝ) * d / θ.getD i 0) (lineages ev) (diffs (times ev))
+          (skygridIdx ev).dropLast).sum := by
+    have hb := idxSum_eq_zipWith (fun s t => s / t) (fun s => by simp)
+      ((splitAtMarks 0 (marks ev) (intervalTerms ev)).map List.sum) θ 0
+    rw [List.drop_zero] at hb
+    rw [← hb]
+    have hr := regroup (fun g => (θ.getD g 0)⁻¹) 0 (marks ev) (intervalTerms ev) 0 (by omega)
+    simp only [div_eq_mul_inv] at hr ⊢
+    rw [← hr]
+    have hz := zipWith3_eq_zipWith (fun k d => (choose2 k : ℝ) * d) (fun i => (θ.getD i 0)⁻¹)
+      (lineages ev) (diffs (times ev)) (skygridIdx ev).dropLast
+    rw [hz]
+    unfold skygridIdx cumsum intervalTerms
+    rw [zipWith_dropLast]
+    rw [length_cumsumFrom]
+    simp only [isMark, List.length_map]
+    exact hlenT
+  -- the counts
+  have h2 : (List.zipWith (fun (c : ℕ) t => ((c : ℤ) : ℝ) * Real.log t)
+        ((splitAtMarks 0 (marks ev) (isMark (-1) (marks ev))).map List.sum) θ).sum
+      = ((List.zipWith (fun m i => if m = -1 then Real.log (θ.getD i 0) else (0 : ℝ)) (marks ev)
+          (skygridIdx ev)).tail).sum := by
+    -- counts as reals
+    have hcast : (List.zipWith (fun (c : ℕ) t => ((c : ℤ) : ℝ) * Real.log t)
+          ((splitAtMarks 0 (marks ev) (isMark (-1) (marks ev))).map List.sum) θ)
+        = List.zipWith (fun s t => s * Real.log t)
+            ((splitAtMarks 0 (marks ev) ((isMark (-1) (marks ev)).map (fun c : ℕ => (c : ℝ)))).map List.sum) θ := by
+      have hsum : ∀ g : List ℕ, (((g.sum : ℕ) : ℤ) : ℝ) = (g.map (fun c : ℕ => (c : ℝ))).sum := by
+        intro g
+        induction g with
+        | nil => simp
+        | cons a g ih => simp only [List.sum_cons, List.map_cons, ← ih]; push_cast; ring
+      rw [splitAtMarks_map, List.map_map, List.zipWith_map_left, List.zipWith_map_left]
+      congr 1
+      funext g t
+      simp only [Function.comp, hsum]
+    rw [hcast]
+    have hb := idxSum_eq_zipWith (fun s t => s * Real.log t) (fun s => by simp)
+      ((splitAtMarks 0 (marks ev) ((isMark (-1) (marks ev)).map (fun c : ℕ => (c : ℝ)))).map List.sum) θ 0
+    rw [List.drop_zero] at hb
+    rw [← hb]
+    have hr := regroup (fun g => Real.log (θ.getD g 0)) 0 (marks ev)
+      ((isMark (-1) (marks ev)).map (fun c : ℕ => (c : ℝ))) 0 (by simp [isMark])
+    rw [← hr]
+    -- indicator × log = the `where`, and position 0 is not a coalescent event
+    subst hev
+    unfold skygridIdx cumsum
+    simp only [marks, isMark, List.map_cons, cumsumFrom, List.zipWith_cons_cons, List.tail_cons, List.sum_cons,
+      List.map_map]
+    rw [if_neg hhead]
+    simp only [Nat.cast_zero, zero_mul, zero_add]
+    rw [List.zipWith_map_left, List.zipWith_map_left]
+    congr 2
+    funext a b
+    simp only [Function.comp]
+    by_cases hm : a.mark = -1 <;> simp [hm]
+  rw [h1, h2]
+  ring
+
+example : reproduce [1, 2, 4] (skygridSuffStats [1 / 2, 5] (([1, 0, 0] : List ℝ) ++ [3, 2])).1
+      (skygridSuffStats [1 / 2, 5] (([1, 0, 0] : List ℝ) ++ [3, 2])).2
+    = -(skygridLogProb [1, 2, 4] [1 / 2, 5] (([1, 0, 0] : List ℝ) ++ [3, 2])) :=
+  suffstats_reproduce_skygrid [1, 2, 4] [1 / 2, 5] Ex.p3 Ex.p2 rfl Ex.young
+
 end TTProps.C20
